@@ -9,6 +9,8 @@ from pyvc.api import contract, lemma, Loop, native
 from specs.cachespec import PERS, MOD, CACHE
 import specs.cachespec  # noqa: F401
 
+import contracts.c14  # noqa: F401,E402  (the rows written to a module's symbol cache are chosen and ordered by SymbolDB._order_keys)
+
 LEVEL = 'proof'
 
 contract(PERS, 'SymbolDBPersistor._can_store', 'C05', types={'self': 'SymbolDBPersistor', 'module': 'ModuleRef'}, witness='witness_disabled_store',
@@ -105,8 +107,10 @@ def extra_checks(tier, seed, active_known):
 		x.violation = {'what': fails[0]['what'], 'function': 'pipeline (rogw/tranp/cache, semantics/reflection/persistent.py)', 'inputs': fails[0], 'clause': 'output_warm == output_cold'}
 		x.finding_key = 'pipeline|warm-cold'
 	runs2, fails2 = pipeline.cache_scenarios()
+	r3, f3 = pipeline.prefix_module_cache()
+	runs2, fails2 = runs2 + r3, fails2 + f3
 	y = Extra(name='scripted cache histories: an edit within the same whole second as the cached file; a disabled run on a directory filled by an enabled run', kind='bounded', ok=not fails2, cases=runs2,
-		bound='2 scripted histories of 3 runs each on a two-module project (real CLI)', detail=f'{len(fails2)} failing histories', samples=[{'history': ['run (caching enabled)', 'disable caching', 'run', 'clear-cache', 'run'], 'verdict': 'equal outputs, cache directory untouched'}])
+		bound='3 scripted histories of 3 runs each (same-second edit; enabled then disabled; module paths in prefix relation imported by a third module) on the real CLI', detail=f'{len(fails2)} failing histories', samples=[{'history': ['run (caching enabled)', 'disable caching', 'run', 'clear-cache', 'run'], 'verdict': 'equal outputs, cache directory untouched'}])
 	y.distinct = runs2
 	if fails2:
 		y.violation = {'what': fails2[0]['what'], 'function': 'pipeline (implements/syntax/lark/parser.py entry cache identity, semantics/reflection/persistent.py)', 'inputs': fails2[0], 'clause': 'output_warm == output_cold; caching disabled => no cache access'}
